@@ -258,11 +258,12 @@ func (k Keeper) StartDistributionProcess(ctx sdk.Context, states *[]types.State,
 	localRemains = states
 	defaultShare := coinsToDistributeDec
 	for _, share := range subDistributor.Destinations.Shares {
-		if share.Destination.Type == types.Main {
-			continue
-		}
 		calculatedShare := calculatePercentage(share.Share, coinsToDistributeDec)
 		defaultShare = defaultShare.Sub(calculatedShare)
+		if share.Destination.Type == types.Main {
+			// the share stays on the main account, unassigned, for the next subdistributor with the main source
+			continue
+		}
 		if !calculatedShare.IsZero() {
 			findFunc := func() int {
 				return findAccountState(localRemains, &share.Destination)
